@@ -291,7 +291,7 @@ def check_main(pid, tier, seed):
         a["hashseed"] = hs
         aggs.append(a)
         for he in a["harness_errors"]:
-            harness_errors.append(f"worker {k}: {he}")
+            harness_errors.append(f"worker {k}: idx={he.get('idx')} {he.get('error')} :: {(he.get('tb') or '')[-300:]!r}")
     for k, p, out, hs in procs:
         try:
             os.remove(out)
@@ -324,7 +324,8 @@ def check_main(pid, tier, seed):
             groups[key] = f
     new_violations = []
     known_hit = []
-    os.makedirs(os.path.join(VERIF, "replays"), exist_ok=True)
+    rdir = os.environ.get("VERIF_REPLAY_DIR", os.path.join(VERIF, "replays"))
+    os.makedirs(rdir, exist_ok=True)
     tree = repo_tree_hash()
     for (rule, site), f in sorted(groups.items()):
         e = match_known(known, pid, rule, site)
@@ -333,7 +334,7 @@ def check_main(pid, tier, seed):
             print(f"KNOWN-FINDING: property={pid} {rule}/{site} {e['description']}")
             continue
         name = f"{pid}-{seed}-{f['digest'][:8]}.json"
-        path = os.path.join(VERIF, "replays", name)
+        path = os.path.join(rdir, name)
         with open(path, "w") as fh:
             json.dump(
                 {
@@ -399,9 +400,10 @@ def check_main(pid, tier, seed):
     }
     if getattr(prop, "EXHAUSTIVE", None):
         evidence["coverage"]["sweep"] = prop.EXHAUSTIVE(tier, complete)
-    os.makedirs(os.path.join(VERIF, "evidence"), exist_ok=True)
-    with open(os.path.join(VERIF, "evidence", f"{pid}.json"), "w") as f:
-        json.dump(evidence, f, indent=1, default=str)
+    if not os.environ.get("VERIF_NO_EVIDENCE"):
+        os.makedirs(os.path.join(VERIF, "evidence"), exist_ok=True)
+        with open(os.path.join(VERIF, "evidence", f"{pid}.json"), "w") as f:
+            json.dump(evidence, f, indent=1, default=str)
     print(
         f"{pid} {tier}: {ev} runs, {len(sigs)} distinct interleavings, {len(new_violations)} new violation(s), "
         f"{len(known_hit)} known, {wall_s:.1f}s wall"
